@@ -16,6 +16,8 @@ mod frame;
 mod mask;
 mod proto;
 
+#[cfg(actix_web_verif)]
+pub use self::frame::verif;
 pub use self::{
     codec::{Codec, Frame, Item, Message},
     dispatcher::Dispatcher,
